@@ -213,6 +213,22 @@ PROPS = {
 }
 
 
+PROPS["C19"] = {
+    "level": "other",
+    "design_ref": "DESIGN.md §3 C19",
+    "technique": "Kani contract harness on the real canonical-form writer over all 3-node graphs of unnamed nodes with arbitrary keys; the recursion-unwinding assertion is the termination obligation",
+    "level_text": "Bounded deductive check (labelled bounded): every graph of 3 nodes over {long, array, map, union} with every key assignment - dangling keys, self references, cycles of "
+                  "every shape - is run through the real generic write_canonical_form; it returns Ok exactly when the unfolding from the root is finite and Err otherwise, with Kani's "
+                  "panic / bounds / recursion-unwinding checks as obligations. This is the traversal that freeze() and canonical_form_rabin_fingerprint() run; it is the one that had "
+                  "no guard for unnamed cycles (F4, fixed).",
+    "level_note": "Parsing arbitrary TEXT is serde_json (not applicable); JSON rendering (serialize_to_json) has its own generation-counter guard and goes through serde_json's serializer "
+                  "(not under contract); check_for_cycles is only reachable from the parser. Named nodes (record/enum/fixed) are not in the explored graphs. A1 A4 A8.",
+    "assumptions": [A1, A4, A7, A8],
+    "explanation": "4^3 kind assignments x 4^6 key assignments, explored symbolically (exhaustive at this size). The writer is instantiated with a counting sink so that the CRC table loop "
+                   "does not inflate the unwinding bound; the writer is generic in W and the traversal does not depend on it.",
+    "not_decided": ["arbitrary text input (serde_json)", "serialize_to_json / check_for_cycles traversals", "graphs with named nodes or more than 3 nodes", "'freezing succeeds => safe to use' beyond C10's narrow claim"],
+}
+
 NOT_APPLICABLE = [
     {"property_id": "C05", "reason": "quantifies over external compression libraries (miniz_oxide via flate2; bzip2/xz/zstd/snappy are FFI or not compiled by the pinned default-feature build): no contract within reach of Kani/Verus can state inflate(deflate(x)) == x, and assuming it leaves nothing of the property to decide; the repository-side framing obligations are discharged under C06/C15/C17 for the null codec"},
     {"property_id": "C07", "reason": "the behaviour lives in one 200-line recursive function over a serde_json-deserialized AST with a HashMap name table and inline string rules: no function boundary to put a contract on without rewriting it (a model), CBMC does not get through serde_json or HashMap (measured), Verus accepts neither serde-derived types nor str reasoning"},
